@@ -266,6 +266,27 @@ const C_N0_MUT: (usize, usize) = {
     (c.len(), r.len())
 };
 
+// zero-sized elements: a slice longer than isize::MAX ELEMENTS is a valid slice (0 bytes); chunk count L / N,
+// remainder L mod N, at compile time too.   huge-item rows (for the driver): NAME => N L mutable
+// huge-item: C_HUGE_A => 3 9223372036854775813 0
+// huge-item: C_HUGE_B => 1 18446744073709551615 0
+// huge-item: C_HUGE_M => 3 9223372036854775813 1
+const C_HUGE_A: (usize, usize) = {
+    let s: &[()] = &[(); isize::MAX as usize + 6];
+    let (c, r) = GenericArray::<(), U3>::chunks_from_slice(s);
+    (c.len(), r.len())
+};
+const C_HUGE_B: (usize, usize) = {
+    let s: &[()] = &[(); usize::MAX];
+    let (c, r) = GenericArray::<(), U1>::chunks_from_slice(s);
+    (c.len(), r.len())
+};
+const C_HUGE_M: (usize, usize) = {
+    let mut a = [(); isize::MAX as usize + 6];
+    let (c, r) = GenericArray::<(), U3>::chunks_from_slice_mut(&mut a);
+    (c.len(), r.len())
+};
+
 fn const_cases() -> Vec<(Vec<i128>, Vec<i128>)> {
     let mut v = vec![];
     macro_rules! cc {
@@ -336,6 +357,11 @@ fn main() {
     assert_eq!(C_N0, (0, 0, 0));
     assert_eq!(C_N0_MUT, (0, 0));
     note("const items: chunks_from_slice(_mut) on the empty slice with N = 0 evaluated to empty results at compile time");
+    const L6: usize = isize::MAX as usize + 6;
+    assert_eq!(C_HUGE_A, (L6 / 3, L6 % 3));
+    assert_eq!(C_HUGE_B, (usize::MAX, 0));
+    assert_eq!(C_HUGE_M, (L6 / 3, L6 % 3));
+    note("const items: chunks_from_slice(_mut) on zero-sized slices of isize::MAX + 6 and usize::MAX elements evaluated to L / N chunks and L mod N elements at compile time");
     for (case, _) in const_cases() {
         dist(&format!("form{}", case[0]));
         dist(&format!("ty{}", case[1]));
